@@ -38,6 +38,8 @@ inductive V where
   | y (i : Nat)       -- `y_<id>` (ROOM)
   | ind (i : Nat)     -- `ind_<id>` (minimal medium, MIP)
   | auxv (i : Nat)    -- `auxiliary_<id>` (fastcc)
+  | indicator (i : Nat)  -- `indicator_<id>` (add_loopless)
+  | deltaG (i : Nat)  -- `delta_g_<id>` (add_loopless)
 deriving DecidableEq, Repr
 
 inductive Kind where
@@ -258,6 +260,34 @@ def Net.fastcc (n : Net) (sub : List Nat) (thr : Rat) (flip : List Nat) (flipped
       ⟨"constraint_" ++ (n.rx i).id, .fin 0, .pinf, [(.fwd i, s), (.rev i, s), (.auxv i, -1)]⟩),
     obj := sub.map (fun i => (.auxv i, if flipped then -1 else 1)), dirMax := true }
 
+/-- the internal (non-boundary) reactions, in model order -/
+def Net.internal (n : Net) : List Nat := n.idx.filter (fun i => !(n.rx i).boundary)
+
+/-- `max_bound` of `add_loopless`: the largest bound magnitude over all reactions (finite bounds) -/
+def Net.maxBound (n : Net) : Rat :=
+  n.idx.foldl (fun a i => maxR a (maxR (absR (EB.toRat (n.rx i).lb)) (absR (EB.toRat (n.rx i).ub)))) 0
+
+/-- a null-space vector with the entries at or below the cut-off dropped -/
+def filterRow (cutoff : Rat) (row : List Rat) : List Rat := row.map (fun c => if cutoff < absR c then c else 0)
+
+/-- the indicator, its on/off row, the driving force and its range row of one internal reaction -/
+def Net.looplessVars (i : Nat) : List Var := [⟨.indicator i, .fin 0, .fin 1, .bin⟩, ⟨.deltaG i, .ninf, .pinf, .cont⟩]
+def Net.looplessRows (n : Net) (M G : Rat) (i : Nat) : List Row :=
+  [⟨"on_off_" ++ (n.rx i).id, .fin (-M), .fin 0, flux i 1 ++ [(.indicator i, -M)]⟩,
+   ⟨"delta_g_range_" ++ (n.rx i).id, .fin 1, .fin G, [(.deltaG i, 1), (.indicator i, G + 1)]⟩]
+
+/-- the row that makes the driving forces orthogonal to the `k`-th null-space vector of the internal stoichiometry -/
+def Net.nullRow (n : Net) (cutoff : Rat) (p : List Rat × Nat) : Row :=
+  ⟨"nullspace_constraint_" ++ toString p.2, .fin 0, .fin 0, (n.internal.zip (filterRow cutoff p.1)).map (fun q => (V.deltaG q.1, q.2))⟩
+
+/-- `add_loopless`: `ns` is the null-space basis of the internal stoichiometric matrix (computed by numpy, taken as data) -/
+def Net.loopless (n : Net) (ns : List (List Rat)) (cutoff : Rat) : Prob :=
+  let M := n.maxBound
+  let G := maxR M 1000
+  { vars := n.fba.vars ++ n.internal.flatMap Net.looplessVars,
+    rows := n.fba.rows ++ n.internal.flatMap (n.looplessRows M G) ++ ns.zipIdx.map (n.nullRow cutoff),
+    obj := n.objExpr, dirMax := n.dirMax }
+
 /-- the name the solver sees (`old`: the name the analysis gives its old-objective variable) -/
 def Net.vname (n : Net) (old : String) : V → String
   | .fwd i => (n.rx i).id
@@ -268,5 +298,7 @@ def Net.vname (n : Net) (old : String) : V → String
   | .y i => "y_" ++ (n.rx i).id
   | .ind i => "ind_" ++ (n.rx i).id
   | .auxv i => "auxiliary_" ++ (n.rx i).id
+  | .indicator i => "indicator_" ++ (n.rx i).id
+  | .deltaG i => "delta_g_" ++ (n.rx i).id
 
 end AuxM
